@@ -16,7 +16,7 @@ SEL = part(list(range(len(POOL))))
 NSEL = len(SEL)
 
 DOCNAMES = ['forms_hp', 'forms_lxml', 'forms_h5', 'plain_hp', 'multiroot_hp', 'xml', 'xhtml', 'empty_hp', 'foreign_form_xml',
-            'meta_class_hp', 'meta_class_h5', 'meta_class_lxml', 'scripty_hp']
+            'meta_class_hp', 'meta_class_h5', 'meta_class_lxml', 'scripty_hp', 'listy_hp', 'listy_lxml', 'listy_h5']
 DOCS = [tg.doc(n) for n in DOCNAMES]
 ELS = [tg.elements(d) for d in DOCS]
 DETACHED = [tg.detached('forms_hp', 'f1'), tg.detached('plain_hp', 'u'), tg.detached('xml', 'xa'),
@@ -198,3 +198,46 @@ def long_values_ok(li: int, vi: int, where: int) -> bool:
             a = IN_RANGE.match(N1)
             b = OUT_RANGE.match(N1)
     return ret(isinstance(a, bool) and isinstance(b, bool) and not (a and b))
+
+
+# Strings decoded with surrogateescape (or assigned through the API) can hold lone surrogates: in values the state
+# pseudo-classes read, in attribute names and in element names.
+SUR = ['\ud800', 'te\udc80xt', '\udfffltr', 'a\ud83d', 'RADIO\udc00']
+
+
+def _sur_doc(k, v):
+    d = bs4.BeautifulSoup('<html><body><form><input id="i" type="radio" name="g"><input id="j" type="number" min="1" max="5" value="3">'
+                          '<textarea id="t" dir="auto">x</textarea></form><p id="p" lang="en" dir="ltr">t</p></body></html>', 'html.parser')
+    i, j, t, p = (d.find(id=x) for x in 'ijtp')
+    if k == 0:
+        for el, a in ((i, 'type'), (i, 'name'), (j, 'type'), (j, 'min'), (j, 'value'), (t, 'dir'), (p, 'dir'), (p, 'lang'), (t, 'placeholder')):
+            el.attrs[a] = v
+    elif k == 1:
+        for el in (i, j, t, p):
+            el.attrs['da' + v + 'ta'] = 'x'
+            el.attrs[v] = v
+    else:
+        n = d.new_tag('x' + v)
+        p.append(n)
+        i.name = 'in' + v
+        n.append(d.new_tag('input', type='radio'))
+    return d
+
+
+def surrogate_ok(si: int, vi: int, k: int) -> bool:
+    """
+    pre: 0 <= si < NSEL
+    pre: 0 <= vi < len(SUR)
+    pre: 0 <= k <= 2
+    post: _
+    """
+    si, vi, k = concrete(si), concrete(vi), concrete(k)
+    with notrace():
+        d = _sur_doc(k, SUR[vi])
+        c = COMPILED_ALL[SEL[si]]
+        r = c.select(d)
+        ok = isinstance(r, list)
+        for e in tg.elements(d):
+            ok = ok and isinstance(c.match(e), bool) and isinstance(c.filter(e), list)
+            c.closest(e)
+    return ret(ok)
